@@ -44,7 +44,14 @@ txt += ("\nLessons that were turned into input classes everywhere they apply: in
         "work arrays above a size threshold (bonds 150..400 on short or saturated chains, matrices 300..700), time arguments tuned by Newton iteration to a ZERO of a Krylov\n"
         "coefficient, consistent graphs no constructor emits (parallel edges with one operator id, arbitrary id / edge-list order, twice-added and flipped graphs), option\n"
         "values in numpy-scalar forms (np.bool_(True), 1, np.str_, np.float64), a positive split tolerance whose last truncation happens to discard nothing, and maps handed to the\n"
-        "Krylov routines as reused output buffers / read-only arrays / the argument itself (which exposed defect F10).\n\n"
+        "Krylov routines as reused output buffers / read-only arrays / the argument itself (which exposed defect F10);\n"
+        "from round 6 (16 of 20 missed at first): operands that SHARE some of their tensors by reference, tolerances far below machine epsilon with weak spectral tails\n"
+        "(the absolute rounding slack of the truncation oracles became relative), 64+ charge sectors, complex-orthogonal data (M^T M = 1 without M^H M = 1: a forgotten\n"
+        "conjugation), zero steps / zero time step, chains of 1000+ sites (recursion depth), molecular models at L = 9..15 (per-site caches of 128 entries, code paths for\n"
+        "L > 12), graphs whose start node carries a non-zero label, tree nodes with quantum numbers and several trees on one start site, local operators (identity\n"
+        "tensors with 1x1 bonds) as operands, charge-diagonal MPOs, empty interior bonds (which exposed defect F11), graded matrices for Arnoldi (the tolerance is now the\n"
+        "MGS bound eps*cond itself), and complete manifolds in non-minimal labellings, for which an independent dense reference implementation of the documented integrator\n"
+        "(pvm/tdvp_ref.py) decides whether the algorithm itself is exact.\n\n"
         "Note on the repository suite: `test_krylov.py::test_eigh_krylov` fails in about 2 % of runs on the unchanged tree (12 of 600 seeded replays of its body, the\n"
         "same number before and after fix `3c1fa1a`): its tolerance on the second Ritz value is statistical. It is unrelated to any change made here.\n")
 d = open('/verif/DESIGN.md').read()
